@@ -5,7 +5,6 @@ import (
 	"unicode"
 
 	"git.sr.ht/~rockorager/vaxis"
-	"golang.org/x/exp/slices"
 )
 
 const scrolloff = 4
@@ -70,19 +69,13 @@ func (m *Model) CursorPosition() int {
 }
 
 func (m *Model) String() string {
-	buf := strings.Builder{}
-	for _, ch := range m.content {
-		buf.WriteString(ch.Grapheme)
-	}
-	return buf.String()
+	return charactersToString(m.content)
 }
 
 func (m *Model) Update(msg vaxis.Event) {
 	switch msg := msg.(type) {
 	case vaxis.PasteEndEvent:
-		chars := vaxis.Characters(string(m.paste))
-		m.content = slices.Insert(m.content, m.cursor, chars...)
-		m.cursor += len(chars)
+		m.insert(string(m.paste))
 		m.paste = []rune{}
 	case vaxis.Key:
 		if msg.EventType == vaxis.EventRelease {
@@ -205,11 +198,7 @@ func (m *Model) Update(msg vaxis.Event) {
 				return
 			}
 			if msg.Text != "" {
-				chars := vaxis.Characters(msg.Text)
-				for _, char := range chars {
-					m.content = slices.Insert(m.content, m.cursor, char)
-					m.cursor += 1
-				}
+				m.insert(msg.Text)
 			}
 		}
 	}
@@ -219,6 +208,29 @@ func (m *Model) Update(msg vaxis.Event) {
 	if m.cursor < 0 {
 		m.cursor = 0
 	}
+}
+
+// insert puts s at the cursor. s can join its neighbours: a combining mark or
+// an emoji modifier continues the cluster it is inserted behind. The content
+// from that cluster on is therefore segmented again, and the cursor is placed
+// behind the inserted text
+func (m *Model) insert(s string) {
+	start := m.cursor
+	if start > 0 {
+		start -= 1
+	}
+	head := charactersToString(m.content[start:m.cursor]) + s
+	tail := charactersToString(m.content[m.cursor:])
+	m.content = append(m.content[:start:start], vaxis.Characters(head+tail)...)
+	m.cursor = start + len(vaxis.Characters(head))
+}
+
+func charactersToString(chars []vaxis.Character) string {
+	buf := strings.Builder{}
+	for _, ch := range chars {
+		buf.WriteString(ch.Grapheme)
+	}
+	return buf.String()
 }
 
 func (m *Model) Draw(win vaxis.Window) {
